@@ -27,7 +27,7 @@ ASSUMPTIONS = [
     "Violations are injected into different types because the validator stops inspecting an element after some findings (not asserted).",
     "Not asserted (not in the property's rule list and not implemented): root types sharing one object, direct assignment to schema.default_resolver (a plain attribute) *after* a validation; assigned before the first validation it is part of the histories.",
 ]
-BUDGET = {"quick": 150, "thorough": 3000}
+BUDGET = {"quick": 500, "thorough": 4000}
 
 LABELS = ["bad-type-name", "bad-field-name", "bad-argument-name", "bad-input-field-name", "bad-enum-value-name", "bad-directive-name",
           "bad-directive-argument-name", "empty-object", "empty-interface", "empty-union", "empty-enum", "empty-input", "duplicate-field",
